@@ -1039,7 +1039,7 @@ func main() {
 		Rule: "every packet sequence (<=2 packets x HB/CMD/PAY x compression x abstract length 0..1, and 1 packet x length 0..3 with one empty read) x EVERY chunking of the reference reader's reads, enumerated by TLC from spec/Framing.tla, plus seeded random 3-4 packet behaviours; each concretised (seeded) to real packet types/sizes and replayed on the real StreamProcessor; non-trivial = at least one packet decoded",
 		Assumptions: []string{
 			"abstract cut positions are mapped into the real body proportionally / at the head / at the tail (seeded); cuts inside the 4-byte length are exact",
-			"the encrypted flag (0x80) is rejected by the reader by design and is not generated; JsonCommand/CommandResp always carry a CommandPacket (Appendix B)",
+			"a writer-preset encrypted flag (0x80) is generated (fl=enc): the reader rejects that packet by design, and the judge demands only that it is consumed exactly and the packets after it still round-trip; JsonCommand/CommandResp always carry a CommandPacket (Appendix B)",
 			"QUIC/KCP are stream transports and are represented by the chunk-controlled reader; the WebSocket pair (thorough) is the real adapter over loopback"},
 		TrustedBase: []string{"TLC", "spec/FramingTrace.tla as the reading of C01", "byte/struct equality computed in Go (drivers/c01)", "gorilla/websocket as the peer of the real wsServerConn/wsClientConn"},
 	})
